@@ -33,6 +33,8 @@ def run(ctx):
     hist_reqs, hist_impl, hist_meta = [], [], []
     for h in range(n_hist):
         k = ctx.rng.randrange(2, 13)
+        if h == 0 and pool:
+            k = 1500 if ctx.tier == "thorough" else 500     # one long-lived instance: hundreds of calls
         calls = [ctx.rng.choice(pool) for _ in range(k)]
         # repetitions: the very same call again, directly and after other (failing) calls
         failing = [c for c in pool if c.impl == "err"]
